@@ -396,6 +396,7 @@ func clipLog(l []string) []string {
 
 func runC17(c *fw.Ctx) {
 	runSpxFamily(c, "C17")
+	runSegmentation(c, map[string]bool{"c17": true, "c10": true, "c09": true}, "C17")
 	thorough := c.Tier == "thorough"
 	var item int64
 	sampled := 0
@@ -555,6 +556,13 @@ func runC17(c *fw.Ctx) {
 }
 
 func replayC17(raw json.RawMessage) (string, bool) {
+	var segFam struct {
+		Family string `json:"family"`
+	}
+	json.Unmarshal(raw, &segFam)
+	if segFam.Family == "segmentation" {
+		return replaySegmentation(raw)
+	}
 	var r struct {
 		Case c17Case `json:"case"`
 	}
